@@ -109,6 +109,7 @@ UNIT_DRIVERS = {
     "pipeline_failure": ["commit::fault_enum"],
     "restore_protocol": ["levels::checkpoint_enum_quick"],
     "checkpoint_protocol": ["levels::checkpoint_enum_quick"],
+    "block_cache": ["levels::checkpoint_enum_quick"],
     "dir_lock": ["exclusive_enum_quick"],
     "open_lock": ["exclusive_enum_quick"],
     "wal_sticky": ["wal::log_enum_quick"],
